@@ -156,6 +156,10 @@ def run_config(w, c, idx):
                 del args[i:i + 2]
             else:
                 args.append("--bogus")
+        if cause == "output_dir_missing":
+            out_path = sb.path("no-such-directory/out.bin")
+        if cause == "output_device_full":
+            out_path = "/dev/full"
         if c["outp"] == "file":
             args += ["--output" if lng else "-o", out_path]
             if c["prior"] == "present":
@@ -181,13 +185,19 @@ def run_config(w, c, idx):
             pw = "not-the-password"
         if cause != "unset_password":
             env["KESTREL_PASSWORD"] = pw
-        r = cli.kestrel(args, env=env, stdin=stdin, timeout=120)
+        r = cli.kestrel(args, env=env, stdin=stdin, timeout=120, stdout_path="/dev/full" if cause == "stdout_full" else None)
         # ---- classify the output ----
-        if c["outp"] == "file":
+        if cause in ("output_device_full", "stdout_full"):
+            got = b"n/a"
+        elif cause == "output_dir_missing":
+            got = None if not os.path.exists(out_path) else b"created"
+        elif c["outp"] == "file":
             got = sb.read("out.bin")
         else:
             got = r.out if r.out else None
-        if got is None:
+        if got == b"n/a":
+            out = "n/a"
+        elif got is None:
             out = "absent" if c["outp"] == "file" else "none"
         elif c["outp"] == "file" and c["prior"] == "present" and got == prior:
             out = "untouched"
@@ -298,6 +308,10 @@ def c12(pid, tier, seed, selftest=False):
                 sel.append(c)
         elif c["cmd"] != "decrypt" and c["prior"] == "absent" and c["cause"] in ("none", "wrong_password", "unset_password", "bad_args"):
             if thorough or (c["long"] == c["alias"]):
+                sel.append(c)
+        elif c["cause"] in ("output_dir_missing", "output_device_full", "stdout_full"):
+            # the output cannot be written: not completed, exit 1 with a message
+            if thorough or (c["long"] == c["alias"] and c["sender"] == "first" and c["kr"] == "opt" and c["inp"] == "file") or c["cmd"] == "key_generate":
                 sel.append(c)
         elif c["cause"] == "none" and c["prior"] == "present" and c["outp"] == "file":
             # success onto a pre-existing (longer) output file: the result must be exactly the new output
